@@ -63,7 +63,7 @@ def lengths_for(name, q, rng):
         if k in name:
             blocks = bl
     for b in blocks:
-        base += [b - 1, b, b + 1, 2 * b + 1]
+        base += [b - 1, b, b + 1, 2 * b, 2 * b + 1] + ([30 * b] if b <= 100 else [])      # (sfdrive takes at most 69999 tokens per script line)
     base += [4097] if not blocks or max(blocks) < 1000 else []
     if q:
         keep = set([0, 1] + [x for x in base if x > 3])
@@ -162,6 +162,10 @@ def run(ctx):
                 key, msg = "%s:short_read" % fam, "N=%d ch=%d type %s: read returned %s" % (nfr, ch, t, d.get("ret"))
             elif d.get("dig") != want:
                 key, msg = "%s:data_differs" % fam, "N=%d ch=%d type %s: digest %s, written %s" % (nfr, ch, t, d.get("dig"), want)
+        if key and fam == "PAF24" and nfr > 10 and nfr % 10 == 0:
+            # the recorded PAF24 finding is about a final PARTIAL block (or a file of at most one block); a PAF24 file of several whole blocks that
+            # does not round-trip is something else.  (SDS loses its final block whether it is partial or not, so no such split there.)
+            key += ":whole_blocks"
         if key and key not in seen:
             seen.add(key)
             ctx.violation("rt:" + key, "%s %s" % (name, msg), "script:\n" + sdrive.section_prefix(script, ln)[-20000:] + "\n\ntranscript:\n" + hl[ln][2][:1500])
